@@ -71,7 +71,7 @@ def cont_jobs(r, names, per_opt: int, modes=True):
         # more workers than agents to create, in both pooled modes (sampled: a pool of 16 processes per run is slow)
         if nm in names[:2] or r.random() < (0.05 if per_opt < 10 else 0.5):
             for mode in ("process", "thread"):
-                jobs.append({"opt": nm, "family": "many-workers", "mode": mode, "workers": 16, "cfg": {"max_cycles": 2, "population_size": min(P0, 12), "fitness_error": None},
+                jobs.append({"opt": nm, "family": "many-workers", "mode": mode, "workers": P0 + 4, "cfg": {"max_cycles": 2, "population_size": P0, "fitness_error": None},
                              "task": {"vars": fams["dim3"](), "obj": "sphere", "minmax": r.choice(["min", "max"]), "seed": r.randint(0, 10**6)}})
         # an enormous cycle budget that a generous fitness_error ends after one cycle, and a narrow box far from the origin
         jobs.append({"opt": nm, "family": "huge-budget", "cfg": {"max_cycles": r.choice([100000, 1000000]), "population_size": P0, "fitness_error": 1e9},
